@@ -128,15 +128,51 @@ func singleStore(a *ssa.Alloc) ssa.Value {
 	var sv ssa.Value
 	n := 0
 	for _, r := range *a.Referrers() {
-		if st, ok := r.(*ssa.Store); ok && st.Addr == a {
-			sv = st.Val
-			n++
+		switch x := r.(type) {
+		case *ssa.Store:
+			if x.Addr == a {
+				sv = x.Val
+				n++
+			}
+		case *ssa.MakeClosure:
+			// the cell escapes into a closure: a store through the captured variable is a second store
+			for i, b := range x.Bindings {
+				if b == ssa.Value(a) {
+					if fn, ok := x.Fn.(*ssa.Function); ok && i < len(fn.FreeVars) && freeVarStored(fn.FreeVars[i], 0) {
+						return nil
+					}
+				}
+			}
 		}
 	}
 	if n == 1 {
 		return sv
 	}
 	return nil
+}
+
+// freeVarStored: is the captured variable assigned inside the closure (or a closure nested in it)?
+func freeVarStored(fv *ssa.FreeVar, depth int) bool {
+	if depth > 3 {
+		return true
+	}
+	for _, r := range *fv.Referrers() {
+		switch x := r.(type) {
+		case *ssa.Store:
+			if x.Addr == ssa.Value(fv) {
+				return true
+			}
+		case *ssa.MakeClosure:
+			for i, b := range x.Bindings {
+				if b == ssa.Value(fv) {
+					if fn, ok := x.Fn.(*ssa.Function); ok && i < len(fn.FreeVars) && freeVarStored(fn.FreeVars[i], depth+1) {
+						return true
+					}
+				}
+			}
+		}
+	}
+	return false
 }
 
 // fieldPath renders an address expression made of FieldAddr chains as Type.f1.f2.
